@@ -133,6 +133,7 @@ func frame(round uint8, class uint8, body []byte) []byte {
 }
 
 func runDisp(r *prng.R, s *out.Sink, tier string) {
+	defer dispSearch(r.Fork(), s, tier)
 	sessions := 150
 	if tier == "thorough" {
 		sessions = 3000
@@ -246,5 +247,108 @@ func runDisp(r *prng.R, s *out.Sink, tier string) {
 			}
 		}
 		ds.close()
+	}
+}
+
+// dispSearch: a cheap adversary search for C02 through the real dispatcher. Two honest selected signers (1 and 2) of a
+// signing session whose agreed list {1,2,3} is a strict subset of the membership {1,2,3,4}; 3 is a corrupted selected
+// signer, 4 a corrupted member that was not selected. The adversary picks moves from a menu (either payload to either
+// victim, acknowledgements of either digest attributed to 3 or to 4, towards either victim); the honest parties'
+// own acknowledgements travel to the other honest party in any order, or not at all. Monitor: the two honest parties
+// never hand different payloads of sender 3, round 1 to their protocol instances.
+func dispSearch(r *prng.R, s *out.Sink, tier string) {
+	trials := 150
+	if tier == "thorough" {
+		trials = 3000
+	}
+	configured := []uint16{1, 2, 3, 4}
+	agreed := []uint16{1, 2, 3}
+	P := [][]byte{frame(1, 1, []byte{0xA1}), frame(1, 1, []byte{0xB2})}
+	ackOf := func(p []byte, sender uint16) []byte {
+		return threshold.VerifNewRBCEncoding(string(sha(p[1:])), sender, 1)
+	}
+	found := 0
+	for k := 0; k < trials && found < 2; k++ {
+		sess := map[uint16]*dispSession{}
+		okOpen := true
+		for _, id := range []uint16{1, 2} {
+			ds, err := openDispSessionOf("sign", id, configured, agreed, false)
+			if err != nil {
+				okOpen = false
+				break
+			}
+			sess[id] = ds
+		}
+		if !okOpen {
+			for _, ds := range sess {
+				ds.close()
+			}
+			continue
+		}
+		type fl struct {
+			from, to uint16
+			data     []byte
+			what     string
+		}
+		var pending []fl
+		var hist []string
+		handed := map[uint16]string{}
+		moves := 4 + r.Intn(7)
+		for step := 0; step < 60 && (moves > 0 || len(pending) > 0); step++ {
+			var f fl
+			if moves > 0 && (len(pending) == 0 || r.Intn(4) != 0) {
+				moves--
+				to := uint16(1 + r.Intn(2))
+				// mostly the consistent split (payload 0 for signer 1, payload 1 for signer 2), sometimes anything
+				pi := int(to) - 1
+				if r.Intn(5) == 0 {
+					pi = r.Intn(2)
+				}
+				switch r.Intn(4) {
+				case 0, 1:
+					f = fl{3, to, P[pi], fmt.Sprintf("3 sends payload %d to %d", pi, to)}
+				case 2:
+					f = fl{4, to, ackOf(P[pi], 3), fmt.Sprintf("4 (not selected) acknowledges payload %d of 3 to %d", pi, to)}
+				default:
+					f = fl{3, to, ackOf(P[pi], 3), fmt.Sprintf("3 acknowledges its own payload %d to %d", pi, to)}
+				}
+			} else {
+				i := r.Intn(len(pending))
+				f = pending[i]
+				pending = append(pending[:i:i], pending[i+1:]...)
+				if r.Intn(6) == 0 {
+					hist = append(hist, "(lost) "+f.what)
+					continue
+				}
+			}
+			ans := sess[f.to].handle(s, f.from, f.data)
+			hist = append(hist, f.what+"  =>  "+ans)
+			for _, ev := range strings.Split(ans, " ; ") {
+				w := strings.Fields(ev)
+				switch {
+				case len(w) == 4 && w[0] == "ack":
+					// the honest party's acknowledgement, on its way to the other honest party
+					var d []byte
+					fmt.Sscanf(w[1], "%x", &d)
+					var snd, rnd int
+					fmt.Sscanf(w[2], "%d", &snd)
+					fmt.Sscanf(w[3], "%d", &rnd)
+					other := uint16(3) - f.to
+					pending = append(pending, fl{f.to, other, threshold.VerifNewRBCEncoding(string(d), uint16(snd), uint8(rnd)),
+						fmt.Sprintf("%d's acknowledgement of %s.. reaches %d", f.to, w[1][:8], other)})
+				case len(w) == 4 && w[0] == "deliver" && w[2] == "3" && w[3] == "b":
+					handed[f.to] = w[1]
+				}
+			}
+		}
+		s.N++
+		s.Count("search/dispatcher-trial")
+		if handed[1] != "" && handed[2] != "" && handed[1] != handed[2] {
+			found++
+			s.Violate("C02", fmt.Sprintf("agreement (through the dispatcher): for sender 3, round 1, honest signer 1 handed over %s and honest signer 2 handed over %s", handed[1], handed[2]), strings.Join(hist, "\n"))
+		}
+		for _, ds := range sess {
+			ds.close()
+		}
 	}
 }
